@@ -141,12 +141,13 @@ class parse_as_header:
     props = ["C14"]
     sig = dict(class_=Const(Block), f=RFile())
     assigns = ["f"]
+    returns = BLOCK
 
     def _short(class_, f):
         return len(fdata(f)) - fpos(f) < 80
 
     def ensures_fields(class_, f, result):
         d = old(fdata(f))[old(fpos(f)):old(fpos(f)) + 80]
-        return (fpos(f) == old(fpos(f)) + 80, d == header_bytes(result))
+        return (fpos(f) == old(fpos(f)) + 80, fdata(f) == old(fdata(f)), d == header_bytes(result))
 
     raises = [(Exception, _short, True)]
